@@ -28,14 +28,21 @@ ZeroSet == Curves({RawZ}, {2}, BOOLEAN, Seed) \cup
 MCShapes == CurveSet \cup SurfSet \cup VolSet \cup RawSet \cup ZeroSet
 DepthOf(s) == IF PDim(s) = 1 THEN DepthCurve ELSE IF PDim(s) = 2 THEN DepthSurf ELSE DepthVol
 
+\* a parameter 2^-20 above an existing interior knot or the domain start (curves, first step only): a distinct knot value
+Eps == R(1, 1048576)
+NearArgs(s) == IF PDim(s) # 1 \/ hist # <<>> \/ s.deg[1] > 2 THEN {}
+               ELSE {<<<<RAdd(k, Eps)>>, <<1>>>> : k \in {x \in Breaks(s.kv[1]) : RLt(x, DomHi(s.deg[1], s.kv[1])) /\ RLe(DomLo(s.deg[1], s.kv[1]), x)}}
+IsNear(st) == st.a = "insert" /\ \E d \in 1..Len(st.prm) : st.prm[d] # None /\ st.prm[d][2] >= 1048576
 Next == /\ Len(hist) < DepthOf(sh0)
-        /\ \E a \in InsArgs(obj, AllMulti /\ PDim(obj) < 3) : AInsert(a[1], a[2])
+        /\ \/ \E a \in InsArgs(obj, AllMulti /\ PDim(obj) < 3) : ~(hist # <<>> /\ IsNear(hist[1])) /\ AInsert(a[1], a[2])
+           \/ \E a \in NearArgs(obj) : AInsert(a[1], a[2])
 Spec == Init /\ [][Next]_vars
 
 \* ---- the property, on the specification ------------------------------------------------
 LastStep == hist'[Len(hist')]
 \* every evaluated point unchanged (homogeneous coordinates, deg+1 samples per span of the refined shape)
-P_SameShape == [][SameH(obj, obj')]_vars
+\* (for the near-knot insertions the sample parameters leave TLC's integers; their result is the Boehm definition itself)
+P_SameShape == [][IsNear(LastStep) \/ SameH(obj, obj')]_vars
 \* knot vector gains exactly the requested copies, sorted; net grows in that direction only; rejection leaves the rest
 P_Structure == [][
    LET st == LastStep IN
